@@ -29,6 +29,7 @@ def verify_function(prog, spec, con, mode='seq', options=None):
         bindings.append(v)
         env[p['n']] = ('val', v)
     # pre-existing pointers have non-negative ids
+    ex.cur_env = env
     spec.begin(ex, st, con, env)
     nreq = 0
     for c in con.of('requires'):
